@@ -40,7 +40,10 @@ func (d *Driver) read() {
 
 		b = append(b, rb...)
 
-		if d.Channel.PromptPattern.Match(b) { //nolint: nestif
+		// loop rather than check once: what is left after dropping the echo of our own rpc can
+		// already be a complete message, if we don't file it now it would be merged with (and
+		// stored under the message id of) whatever we read next.
+		for d.Channel.PromptPattern.Match(b) { //nolint: nestif
 			if bytes.Contains(b, []byte("</rpc>")) {
 				// we read past the input, yay this is good, but we don't care that much, we just
 				// need to reset the buffer... *but* because there is a small read delay in channel
